@@ -111,6 +111,8 @@ class CommitHandler(processor.CommitHandler):
         # If the same path is added or the destination of a rename say,
         # then a fresh file-id is required.
         self._paths_deleted_this_commit: set[str] = set()
+        # (old, new) paths of the directories renamed so far in this commit
+        self._renamed_dirs: list[tuple[str, str]] = []
 
     def mutter(self, msg, *args):
         """Output a mutter message with command context.
@@ -348,7 +350,7 @@ class CommitHandler(processor.CommitHandler):
                 return id, False
 
             # Try the basis inventory
-            id = self.basis_inventory.path2id(path)
+            id = self.basis_inventory.path2id(self._basis_path(path))
             if id is not None:
                 return id, False
 
@@ -370,6 +372,18 @@ class CommitHandler(processor.CommitHandler):
         )
         self._new_file_ids[path] = file_id
         return file_id, True
+
+    def _basis_path(self, path: str) -> str:
+        """Where the entry now at path lives in the basis inventory.
+
+        The basis inventory knows nothing about the directories renamed
+        earlier in this commit; later commands address their content by
+        the new path.
+        """
+        for old, new in reversed(self._renamed_dirs):
+            if path.startswith(new + "/"):
+                path = old + path[len(new) :]
+        return path
 
     def bzr_file_id(self, path) -> inventory.FileId:
         """Get a Bazaar file ID for a path.
@@ -714,7 +728,7 @@ class CommitHandler(processor.CommitHandler):
             if dirname in self._paths_deleted_this_commit:
                 raise KeyError
             try:
-                file_id = inv.path2id(dirname)
+                file_id = inv.path2id(self._basis_path(dirname))
             except NoSuchId as e:
                 # In a CHKInventory, this is raised if there's no root yet
                 raise KeyError from e
@@ -745,7 +759,7 @@ class CommitHandler(processor.CommitHandler):
             # note: delta entries look like (old, new, file-id, ie)
             ie = self._delta_entries_by_fileid[file_id][3]
         else:
-            file_id = inv.path2id(path)
+            file_id = inv.path2id(self._basis_path(path))
             if file_id is None:
                 self.mutter("ignoring delete of %s as not in inventory", path)
                 return
@@ -828,15 +842,14 @@ class CommitHandler(processor.CommitHandler):
             self._rename_pending_change(old_path, new_path, existing)
             return
 
-        file_id = inv.path2id(old_path)
+        file_id = inv.path2id(self._basis_path(old_path))
         if file_id is None:
             self.warning(
                 f"ignoring rename of {old_path} to {new_path} - old path does not exist"
             )
             return
         ie = inv.get_entry(file_id)
-        rev_id = ie.revision
-        new_file_id = inv.path2id(new_path)
+        new_file_id = inv.path2id(self._basis_path(new_path))
         if (
             new_file_id is not None
             and new_path not in self._paths_deleted_this_commit
@@ -847,7 +860,11 @@ class CommitHandler(processor.CommitHandler):
         # The revision-id for this entry will be/has been updated and
         # that means the loader then needs to know what the "new" text is.
         # We therefore must go back to the revision store to get it.
-        lines = self.rev_store.get_file_lines(rev_id, old_path)
+        # (The basis revision, not ie.revision: in the revision that last
+        # changed the entry it may have lived under another path.)
+        lines = self.rev_store.get_file_lines(
+            self.parents[0], self._basis_path(old_path)
+        )
         self.data_for_commit[file_id] = b"".join(lines)
 
     def _delete_all_items(self, inv: inventory.Inventory) -> None:
@@ -1036,6 +1053,10 @@ class CommitHandler(processor.CommitHandler):
         if existing is not None:
             old_path = existing[0]
             entry = (old_path, new_path, file_id, ie)
+        elif old_path:
+            # the old side of a delta entry is a path of the basis inventory
+            old_path = self._basis_path(old_path)
+            entry = (old_path, new_path, file_id, ie)
         if new_path is None and old_path is None:
             # This is a delete cancelling a previous add
             del self._delta_entries_by_fileid[file_id]
@@ -1154,6 +1175,7 @@ class CommitHandler(processor.CommitHandler):
         self._paths_deleted_this_commit.add(old_path)
         if new_ie.kind == "directory":
             self.directory_entries[new_path] = new_ie
+            self._renamed_dirs.append((self._basis_path(old_path), new_path))
 
     def _rename_pending_change(
         self, old_path: str, new_path: str, file_id: inventory.FileId
